@@ -34,8 +34,9 @@ func CheckRootSchema(rootSchema *ischema.ISchema) {
 		c.checkNode(rootSchema.RootNode(), rootSchema.TypesList())
 	}
 
-	for name, typ := range rootSchema.TypesList() {
-		c.checkType(name, typ, rootSchema.TypesList())
+	types := rootSchema.TypesList()
+	for _, name := range rootSchema.TypeNames() {
+		c.checkType(name, types[name], types)
 	}
 }
 
